@@ -103,6 +103,44 @@ theorem flattenRoots_mem_lt {g : Heap} {H0 : Heap} {idx : RefIndex} {ir : IndexR
 
 /-- **steps (1)+(2)**: the inner merge builds, in an empty heap, an isomorphic copy of everything reachable from
 the arguments; an object reachable from two arguments is ONE object inside (one `ref_index` / `index_ref`) -/
+theorem inner_copyF (raw : Bool) {h : Heap} {args : List PVal} {gds : List GDef} {fss : List FlatState} {idx1 : RefIndex}
+    (hf : FlatRoots h args [] gds fss idx1) :
+    ∃ args' G ir,
+      unflattenRootsO (fun _ => Option.none) (gds.map (stampWith (fun _ => Option.none))) (fss.map (convLeaves raw)) [] [] =
+        .ok (args', G, ir) ∧
+      GoodO [] (fun _ => Option.none) idx1 ir G ∧ Rel (phi idx1 ir) h G ∧ ValsRel (phi idx1 ir) args args' ∧
+      (∀ (a : Nat), a ∈ idx1 → a < h.length) ∧ (AttrsNodup h → AttrsNodup G) := by
+  obtain ⟨args', G, ir, hu, Gd, p, hv⟩ := simRootsF (reuse_none h) raw (fun _ => Option.none) (fun _ => Option.none) idx1
+    (fun _ _ _ => rfl) hf ⟨[], by simp⟩ [] [] (GoodO.nil _ _)
+  have honto : ∀ (b : Nat), b < G.length → ∃ (a : Nat), phi idx1 ir a = some b := by
+    intro b hb
+    obtain ⟨i, hi⟩ := Gd.onto b (by simp) hb
+    have hilt : i < idx1.length := (Gd.dom i).mp (by simp [hi])
+    refine ⟨idx1[i], ?_⟩
+    simp only [phi, indexOf?_of_getElem? Gd.nodup (List.getElem?_eq_getElem hilt), hi]
+  refine ⟨args', G, ir, hu, Gd, ⟨?_, ?_, honto⟩, hv, fun a ha => flattenRoots_mem_lt p ha, ?_⟩
+  · intro a b c h1 h2; exact phi_injO Gd h1 h2
+  · intro a b hab
+    obtain ⟨o, o', b', ho, hphi, hH, hrel⟩ := p.obj a (phi_memO hab) (by simp)
+    have : b' = b := by rw [hab] at hphi; exact (Option.some.inj hphi).symm
+    subst this
+    exact ⟨o, o', ho, hH, objRel_toSim hrel⟩
+  · intro nh b cls attrs' hb
+    obtain ⟨a, hab⟩ := honto b (List.getElem?_eq_some_iff.mp hb).1
+    obtain ⟨o, o', b', ho, hphi, hH, hrel⟩ := p.obj a (phi_memO hab) (by simp)
+    have : b' = b := by rw [hab] at hphi; exact (Option.some.inj hphi).symm
+    subst this
+    rw [hb] at hH; cases hH
+    cases hrel with
+    | node hk =>
+      rename_i attrs
+      have h1 : keysNodup attrs := nh a cls attrs ho
+      have hkeys := KVsRel.keys hk
+      unfold keysNodup at h1 ⊢
+      have p1 : ((sortKV attrs).map (·.1)).Perm (attrs.map (·.1)) := (sortBy_perm attrs).map _
+      have p2 : ((sortKV attrs').map (·.1)).Perm (attrs'.map (·.1)) := (sortBy_perm attrs').map _
+      exact p2.nodup_iff.mp (hkeys ▸ p1.nodup_iff.mpr h1)
+
 theorem inner_copy (raw : Bool) {h : Heap} {args : List PVal} {gds : List GDef} {fss : List FlatState} {idx1 : RefIndex}
     (hf : flattenRoots h args [] = .ok (gds, fss, idx1)) :
     ∃ args' G ir,
@@ -110,20 +148,8 @@ theorem inner_copy (raw : Bool) {h : Heap} {args : List PVal} {gds : List GDef} 
         .ok (args', G, ir) ∧
       GoodO [] (fun _ => Option.none) idx1 ir G ∧ Rel (phi idx1 ir) h G ∧ ValsRel (phi idx1 ir) args args' ∧
       (∀ (a : Nat), a ∈ idx1 → a < h.length) := by
-  obtain ⟨args', G, ir, hu, Gd, p, hv⟩ := simRoots (reuse_none h) raw (fun _ => Option.none) (fun _ => Option.none) idx1
-    (fun _ _ _ => rfl) args [] gds fss idx1 hf ⟨[], by simp⟩ [] [] (GoodO.nil _ _)
-  refine ⟨args', G, ir, hu, Gd, ⟨?_, ?_, ?_⟩, hv, fun a ha => flattenRoots_mem_lt p ha⟩
-  · intro a b c h1 h2; exact phi_injO Gd h1 h2
-  · intro a b hab
-    obtain ⟨o, o', b', ho, hphi, hH, hrel⟩ := p.obj a (phi_memO hab) (by simp)
-    have : b' = b := by rw [hab] at hphi; exact (Option.some.inj hphi).symm
-    subst this
-    exact ⟨o, o', ho, hH, objRel_toSim hrel⟩
-  · intro b hb
-    obtain ⟨i, hi⟩ := Gd.onto b (by simp) hb
-    have hilt : i < idx1.length := (Gd.dom i).mp (by simp [hi])
-    refine ⟨idx1[i], ?_⟩
-    simp only [phi, indexOf?_of_getElem? Gd.nodup (List.getElem?_eq_getElem hilt), hi]
+  obtain ⟨args', G, ir, h1, h2, h3, h4, h5, _⟩ := inner_copyF raw (flatRoots_of_flattenRoots h args [] gds fss idx1 hf)
+  exact ⟨args', G, ir, h1, h2, h3, h4, h5⟩
 
 theorem valsRel_ref_mem {φ : Addr → Option Addr} : ∀ {xs ys : List PVal}, ValsRel φ xs ys → ∀ {a : Nat}, PVal.ref a ∈ xs →
     ∃ b, φ a = some b
@@ -148,6 +174,62 @@ theorem clearArgs_rel {φ : Addr → Option Addr} : ∀ {vs ws : List PVal}, Val
     ValsRel φ (vs.map clearArg) (ws.map clearArg)
   | _, _, .nil => .nil
   | _, _, .cons hv ht => .cons (clearArg_rel hv) (clearArgs_rel ht)
+
+/-- the re-use map of the outer merge (4) satisfies what `simO` needs: an inner object whose `outer_index` is bound
+stands for exactly one caller object, of the same kind -/
+theorem reuse_ok {h h2 G G3 : Heap} {idx1 : RefIndex} {ir : IndexRef} {φ' : Addr → Option Addr}
+    (Gd2 : GoodO [] (fun _ => Option.none) idx1 ir G) (hlt1 : ∀ (a : Nat), a ∈ idx1 → a < h.length)
+    (R3 : Rel φ' h2 G3) (hle : PhiLe (phi idx1 ir) φ') (hkind : KindPres h h2) : Reuse G3 h (reuseOf idx1 ir) := by
+  have key : ∀ (b c : Nat), reuseOf idx1 ir b = some c →
+      ∃ i, irLookup i ir = some b ∧ idx1[i]? = some c ∧ phi idx1 ir c = some b := by
+    intro b c hbc
+    unfold reuseOf omapOf at hbc
+    cases hi : irInv ir b with
+    | none => simp [hi] at hbc
+    | some i =>
+      simp [hi] at hbc
+      have h1 := (irInv_some hi).1
+      exact ⟨i, h1, hbc, by simp [phi, indexOf?_of_getElem? Gd2.nodup hbc, h1]⟩
+  refine ⟨?_, ?_, ?_, ?_⟩
+  · intro b b' c h1 h2
+    obtain ⟨i, _, _, p1⟩ := key b c h1
+    obtain ⟨j, _, _, p2⟩ := key b' c h2
+    rw [p1] at p2; exact Option.some.inj p2
+  · intro b c h1
+    obtain ⟨i, _, hc, _⟩ := key b c h1
+    exact hlt1 c (List.mem_of_getElem? hc)
+  · intro b c cls attrs h1 hg
+    obtain ⟨i, _, hc, p1⟩ := key b c h1
+    obtain ⟨o, o', g1, g2, g3⟩ := R3.obj c b (hle c b p1)
+    rw [hg] at g2; cases g2
+    have hcl := hlt1 c (List.mem_of_getElem? hc)
+    have hk := hkind.2 c hcl
+    cases g3 with
+    | node hA =>
+      rw [g1] at hk
+      cases hc0 : h[c]? with
+      | none => simp [hc0] at hk
+      | some o0 =>
+        rw [hc0] at hk
+        cases o0 with
+        | node cls0 A0 => simp [kindOf] at hk; subst hk; exact ⟨A0, rfl⟩
+        | var ty0 v0 md0 => simp [kindOf] at hk
+  · intro b c ty v md h1 hg
+    obtain ⟨i, _, hc, p1⟩ := key b c h1
+    obtain ⟨o, o', g1, g2, g3⟩ := R3.obj c b (hle c b p1)
+    rw [hg] at g2; cases g2
+    have hcl := hlt1 c (List.mem_of_getElem? hc)
+    have hk := hkind.2 c hcl
+    cases g3 with
+    | var _ _ _ =>
+      rw [g1] at hk
+      cases hc0 : h[c]? with
+      | none => simp [hc0] at hk
+      | some o0 =>
+        rw [hc0] at hk
+        cases o0 with
+        | node cls0 A0 => simp [kindOf] at hk
+        | var ty0 v0 md0 => simp [kindOf] at hk; obtain ⟨rfl, rfl⟩ := hk; exact ⟨v0, rfl⟩
 
 /-- **the four-step protocol refines the eager call.**  If `f(*args)` run eagerly on the caller's heap `h` gives
 `(rets, h2)` and the protocol gives `(roots4, h4)`, then the two outcomes are isomorphic by a map `ψ` that is the
@@ -178,57 +260,7 @@ theorem proto_refines_eager (raw : Bool) (f : Fn) (h : Heap) (args : List PVal)
   obtain ⟨rfl, rfl⟩ := e2
   have hkind := runFn_kind he
   -- steps (3)+(4): re-use of the caller's objects
-  have hReuse : Reuse G3 h (reuseOf idx1 ir) := by
-    have key : ∀ (b c : Nat), reuseOf idx1 ir b = some c →
-        ∃ i, irLookup i ir = some b ∧ idx1[i]? = some c ∧ phi idx1 ir c = some b := by
-      intro b c hbc
-      unfold reuseOf omapOf at hbc
-      cases hi : irInv ir b with
-      | none => simp [hi] at hbc
-      | some i =>
-        simp [hi] at hbc
-        have h1 := (irInv_some hi).1
-        exact ⟨i, h1, hbc, by simp [phi, indexOf?_of_getElem? Gd2.nodup hbc, h1]⟩
-    refine ⟨?_, ?_, ?_, ?_⟩
-    · intro b b' c h1 h2
-      obtain ⟨i, _, _, p1⟩ := key b c h1
-      obtain ⟨j, _, _, p2⟩ := key b' c h2
-      rw [p1] at p2; exact Option.some.inj p2
-    · intro b c h1
-      obtain ⟨i, _, hc, _⟩ := key b c h1
-      exact hlt1 c (List.mem_of_getElem? hc)
-    · intro b c cls attrs h1 hg
-      obtain ⟨i, _, hc, p1⟩ := key b c h1
-      obtain ⟨o, o', g1, g2, g3⟩ := R3.obj c b (hle c b p1)
-      rw [hg] at g2; cases g2
-      have hcl := hlt1 c (List.mem_of_getElem? hc)
-      have hk := hkind.2 c hcl
-      cases g3 with
-      | node hA =>
-        rw [g1] at hk
-        cases hc0 : h[c]? with
-        | none => simp [hc0] at hk
-        | some o0 =>
-          rw [hc0] at hk
-          cases o0 with
-          | node cls0 A0 => simp [kindOf] at hk; subst hk; exact ⟨A0, rfl⟩
-          | var ty0 v0 md0 => simp [kindOf] at hk
-    · intro b c ty v md h1 hg
-      obtain ⟨i, _, hc, p1⟩ := key b c h1
-      obtain ⟨o, o', g1, g2, g3⟩ := R3.obj c b (hle c b p1)
-      rw [hg] at g2; cases g2
-      have hcl := hlt1 c (List.mem_of_getElem? hc)
-      have hk := hkind.2 c hcl
-      cases g3 with
-      | var _ _ _ =>
-        rw [g1] at hk
-        cases hc0 : h[c]? with
-        | none => simp [hc0] at hk
-        | some o0 =>
-          rw [hc0] at hk
-          cases o0 with
-          | node cls0 A0 => simp [kindOf] at hk
-          | var ty0 v0 md0 => simp [kindOf] at hk; obtain ⟨rfl, rfl⟩ := hk; exact ⟨v0, rfl⟩
+  have hReuse : Reuse G3 h (reuseOf idx1 ir) := reuse_ok Gd2 hlt1 R3 hle hkind
   have hst : ∀ i a, idx3[i]? = some a → (tblOf idx3 ir i).bind (omapOf idx1) = reuseOf idx1 ir a := by
     intro i a hia
     simp [tblOf, reuseOf, hia]
